@@ -201,7 +201,13 @@ func visitInstr(fr *frame, instr ssa.Instruction) continuation {
 		fr.env[instr] = unop(instr, fr.get(instr.X))
 
 	case *ssa.BinOp:
-		fr.env[instr] = binop(instr.Op, instr.X.Type(), fr.get(instr.X), fr.get(instr.Y))
+		x, y := fr.get(instr.X), fr.get(instr.Y)
+		if os.Getenv("GOSYM_DEBUG_BINOP") != "" && !isSym(x) && !isSym(y) && instr.Op != token.SHL && instr.Op != token.SHR {
+			if fmt.Sprintf("%T", x) != fmt.Sprintf("%T", y) {
+				panic(pathTruncated{fmt.Sprintf("binop operand types differ: %T %s %T at %s in %s", x, instr.Op, y, fr.i.prog.Fset.Position(instr.Pos()), fr.fn)})
+			}
+		}
+		fr.env[instr] = binop(instr.Op, instr.X.Type(), x, y)
 
 	case *ssa.Call:
 		fn, args := prepareCall(fr, &instr.Call)
@@ -317,7 +323,17 @@ func visitInstr(fr *frame, instr ssa.Instruction) continuation {
 		*addr = zero(deref(instr.Type()))
 
 	case *ssa.MakeSlice:
-		ln, cp := symMakeSize(fr.get(instr.Len), fr.get(instr.Cap))
+		ln, cp := func() (int, int) {
+			defer func() {
+				if r := recover(); r != nil {
+					if t, ok := r.(pathTruncated); ok {
+						panic(pathTruncated{t.why + " at " + fr.i.prog.Fset.Position(instr.Pos()).String()})
+					}
+					panic(r)
+				}
+			}()
+			return symMakeSize(fr.get(instr.Len), fr.get(instr.Cap))
+		}()
 		if eng != nil {
 			eng.noteAlloc(cp)
 		}
